@@ -216,6 +216,7 @@ func (dbc *DatabaseContext) UpdatePrincipal(ctx context.Context, updates *auth.P
 			}
 		}
 		princ.SetUpdatedAt()
+		casBeforeSave := princ.Cas()
 		err = authenticator.Save(princ)
 		// On cas error, retry.  Otherwise break out of loop
 		if base.IsCasMismatch(err) {
@@ -225,6 +226,14 @@ func (dbc *DatabaseContext) UpdatePrincipal(ctx context.Context, updates *auth.P
 				base.InfofCtx(ctx, base.KeyAuth, "Error releasing unused sequence %d after CAS retry for principal %s: %v", nextSeq, base.UD(princ.Name()), err)
 			}
 		} else {
+			// If the principal document itself was not written (its cas is unchanged), the allocated sequence will
+			// never arrive over the feed - release it to avoid an abandoned sequence. For timeout errors the write
+			// may or may not have succeeded, so the sequence cannot be released as unused.
+			if err != nil && !base.IsTimeoutError(err) && princ.Cas() == casBeforeSave {
+				if releaseErr := dbc.sequences.releaseSequence(ctx, nextSeq); releaseErr != nil {
+					base.InfofCtx(ctx, base.KeyAuth, "Error releasing unused sequence %d after failed save of principal %s: %v", nextSeq, base.UD(princ.Name()), releaseErr)
+				}
+			}
 			return replaced, princ, err
 		}
 	}
